@@ -129,7 +129,7 @@ fn groups<'a>(g: &Guarded, it: impl Iterator<Item = Result<(Name<'a>, GroupResou
 fn path_of(hexs: &str) -> Vec<u8> { unhex(hexs) }
 
 fn run(g: &Guarded, r: Resources<'_>, a: &[&str]) -> String {
-	let a: Vec<&str> = a.iter().cloned().filter(|x| !x.is_empty() && !x.starts_with("want=") && !x.starts_with("tree=")).collect();
+	let a: Vec<&str> = a.iter().cloned().filter(|x| !x.is_empty() && !x.starts_with("want=") && !x.starts_with("tree=") && !x.starts_with("canon=")).collect();
 	match (a.get(0).cloned().unwrap_or("all"), a.len()) {
 		("all", _) => format!("fsck={} fmt={} dump={}", match r.fsck() { Ok(()) => "ok".to_string(), Err(e) => format!("err:{}", errname(e)) }, text_s(&format!("{}", r)), dump(g, r)),
 		("dump", 1) => dump(g, r),
@@ -175,12 +175,12 @@ fn run(g: &Guarded, r: Resources<'_>, a: &[&str]) -> String {
 				fres(r.find_resource_ex(&p), |b| format!("{}#{}", g.rf(b.as_ptr(), b.len()), digest(b)))
 			}
 		},
-		("manifest", 1) => fres(r.manifest(), |s| g.rf(s.as_ptr(), s.len())),
+		("manifest", 1) => fres(r.manifest(), |s| format!("{}#{}", g.rf(s.as_ptr(), s.len()), digest(s.as_bytes()))),
 		("icons", 1) => groups(g, r.icons()),
 		("cursors", 1) => groups(g, r.cursors()),
 		("version", 1) => {
 			let vi = match r.version_info() { Ok(_) => "ok".to_string(), Err(e) => format!("err:{}", ferr(e)) };
-			format!("{} vi={}", fres(r.find_resource(&[Name::VERSION, Name::Id(1)]), |b| g.rf(b.as_ptr(), b.len())), vi)
+			format!("{} vi={}", fres(r.find_resource(&[Name::VERSION, Name::Id(1)]), |b| format!("{}#{}", g.rf(b.as_ptr(), b.len()), digest(b))), vi)
 		},
 		("grp_write", 2) | ("grp_write", 3) => {
 			let n = match OwnedName::parse(a[1]) { Some(n) => n, None => return "bad-op".to_string() };
